@@ -10,12 +10,45 @@ class Corpus:
     pass
 
 
+def fixed_programs(g):
+    """a few hand-written programs that are always part of the corpus: combinations the random generator reaches rarely"""
+    from gen_corpus import P, N, OPT, VEC
+    progs = []
+    # the enum-wide `rename_all_fields` against a variant's own `rename_all`, in every representation
+    for ri, (rname, attrs) in enumerate((("ext", {}), ("int", {"tag": "kind"}), ("adj", {"tag": "t", "content": "c"}), ("unt", {"untagged": True}))):
+        items = []
+        for k, (raf, ra) in enumerate((("Kebab", "Camel"), ("ScreamingSnake", "Pascal"), ("Camel", None), (None, "ScreamingKebab"))):
+            a = dict(attrs)
+            if raf: a["rename_all_fields"] = raf
+            vs = [{"name": "Closed", "shape": "named", "attrs": ({"rename_all": ra} if ra else {}),
+                   "fields": [{"name": "exit_code", "ty": P("i32"), "attrs": {}}, {"name": "sent_at", "ty": OPT(P("String")), "attrs": {}}]},
+                  {"name": "OpenNow", "shape": "named", "attrs": {}, "fields": [{"name": "x_pos", "ty": P("u8"), "attrs": {}}, {"name": "explicit", "ty": P("bool"), "attrs": {"rename": "Explicit-Name"}}]},
+                  {"name": "Idle", "shape": "unit", "attrs": {}, "fields": []}]
+            items.append({"kind": "enum", "name": f"Fx{rname}{k}", "attrs": a, "generics": [], "variants": vs, "de": True})
+        imap = {x["name"]: x for x in items}
+        progs.append({"items": items, "probes": [{"ty": N(x["name"]), "values": g.all_variant_values(N(x["name"]), imap), "de": True} for x in items]})
+    # tuple variants / structs whose fields are all skipped (serde keeps the tuple style: `[]`)
+    items = []
+    for rname, attrs in (("ext", {}), ("adj", {"tag": "t", "content": "c"}), ("unt", {"untagged": True})):
+        sk = lambda t: {"name": None, "ty": P(t), "attrs": {"skip": True, "default": True}}
+        items.append({"kind": "enum", "name": f"FxSk{rname}", "attrs": dict(attrs), "generics": [], "de": True,
+                      "variants": [{"name": "Pair", "shape": "tuple", "attrs": {}, "fields": [sk("u8"), sk("String")]},
+                                   {"name": "One", "shape": "tuple", "attrs": {}, "fields": [sk("bool")]},
+                                   {"name": "Mixed", "shape": "tuple", "attrs": {}, "fields": [sk("u8"), {"name": None, "ty": P("String"), "attrs": {}}]},
+                                   {"name": "Plain", "shape": "named", "attrs": {}, "fields": [{"name": "v", "ty": P("u8"), "attrs": {}}]}]})
+    items.append({"kind": "struct", "name": "FxSkT", "shape": "tuple", "attrs": {}, "generics": [], "de": True, "fields": [
+        {"name": None, "ty": P("u8"), "attrs": {"skip": True, "default": True}}, {"name": None, "ty": P("bool"), "attrs": {"skip": True, "default": True}}]})
+    imap = {x["name"]: x for x in items}
+    progs.append({"items": items, "probes": [{"ty": N(x["name"]), "values": g.all_variant_values(N(x["name"]), imap), "de": True} for x in items]})
+    return progs
+
+
 def get(ctx, n_quick=40, n_thorough=400, tag="main"):
     """generate, compile, run, model, compare. Returns Corpus (fields may be None if the build failed)."""
     c = Corpus()
     g = gen_corpus.Gen(random.Random(ctx.seed * 7919 + 13))
     n = n_quick if ctx.quick else n_thorough
-    c.programs = [g.program(i) for i in range(n)]
+    c.programs = [g.program(i) for i in range(n)] + fixed_programs(g)
     c.tags = g.tags
     c.cwd = os.path.join(vlib.SCRATCH, f"e2e-{tag}")
     hb = vlib.build_hookbin(ctx)
